@@ -22,6 +22,7 @@ import (
 
 	"verif/internal/keys"
 	"verif/internal/mon"
+	"verif/internal/sched"
 )
 
 // reqHeader names the concurrent request a handler / monitor call belongs to (part C only).
@@ -52,9 +53,18 @@ type rpConfig struct {
 	CustomErr    bool     `json:"custom_error_handler"`
 	AuthParams   []kv     `json:"auth_params"`
 	ExchParams   []kv     `json:"exchange_params"`
-	Collide      bool     `json:"auth_params_collide"` // the application itself overrides a judged parameter: URL clauses grey
-	Foreign      string   `json:"foreign_keys"`        // how the other RP's keys differ: hash | block | both | noblock | addblock
-	SameState    bool     `json:"same_state"`          // interleaved logins: the application's state function returns a constant
+	Collide      bool     `json:"auth_params_collide"`                       // the application itself overrides a judged parameter: URL clauses grey
+	Foreign      string   `json:"foreign_keys"`                              // how the other RP's keys differ: hash | block | both | noblock | addblock
+	SameState    bool     `json:"same_state"`                                // interleaved logins: the application's state function returns a constant
+	ScopesSpare  bool     `json:"scopes_slice_has_spare_capacity,omitempty"` // the application's scopes slice has cap > len (an append by the library would alias it)
+}
+
+// scopesArg is the scopes slice the application hands to the constructor (always its own copy of cfg.Scopes).
+func scopesArg(cfg rpConfig) []string {
+	if cfg.ScopesSpare {
+		return append(make([]string, 0, len(cfg.Scopes)+4), cfg.Scopes...)
+	}
+	return append([]string(nil), cfg.Scopes...)
 }
 
 type appCall struct {
@@ -67,8 +77,8 @@ type appCall struct {
 type hcall struct {
 	Req string `json:"req,omitempty"`
 	A   string `json:"a"`
-	B string `json:"b,omitempty"`
-	S string `json:"state"`
+	B   string `json:"b,omitempty"`
+	S   string `json:"state"`
 }
 
 // world is one RP instance with its monitors.
@@ -183,11 +193,11 @@ func newWorld(cfg rpConfig, hashKey, blockKey []byte, op *fakeOP) (w *world, err
 	pi = mon.Catch(func() {
 		if cfg.Kind == "oauth" {
 			w.rp, err = rp.NewRelyingPartyOAuth(&oauth2.Config{
-				ClientID: cfg.ClientID, ClientSecret: cfg.Secret, RedirectURL: cfg.Redirect, Scopes: append([]string(nil), cfg.Scopes...),
+				ClientID: cfg.ClientID, ClientSecret: cfg.Secret, RedirectURL: cfg.Redirect, Scopes: scopesArg(cfg),
 				Endpoint: oauth2.Endpoint{AuthURL: cfg.AuthURL, TokenURL: cfg.TokenURL},
 			}, opts...)
 		} else {
-			w.rp, err = rp.NewRelyingPartyOIDC(context.Background(), cfg.Issuer, cfg.ClientID, cfg.Secret, cfg.Redirect, append([]string(nil), cfg.Scopes...), opts...)
+			w.rp, err = rp.NewRelyingPartyOIDC(context.Background(), cfg.Issuer, cfg.ClientID, cfg.Secret, cfg.Redirect, scopesArg(cfg), opts...)
 		}
 	})
 	if pi != nil || err != nil {
@@ -201,6 +211,7 @@ func newWorld(cfg rpConfig, hashKey, blockKey []byte, op *fakeOP) (w *world, err
 		exchP = append(exchP, rp.WithURLParam(p.K, p.V))
 	}
 	stateFn := func() string {
+		sched.Point("app:state-function")
 		if len(w.next) == 0 {
 			return "harness-state-queue-empty"
 		}
